@@ -86,6 +86,12 @@ def solve_case(N, bx, r, eps, f_u, density=None, pre=0, coarse=None, holder=None
     run = tree.make_run(cfg, lambda k, y: f_u((y - lo_a) / w), listeners=[rec])
     if coarse is not None:
         run.solve()
+        # between the stages the user asks the evolvent where the reported optimum lies on the curve (read-only query
+        # given the Solution's own array)
+        try:
+            run.solver.evolvent.GetPreimages(run.solver.GetResults().bestTrials[0].point.floatVariables)
+        except Exception:
+            pass
         run.params.eps = eps
     if pre:
         try:
@@ -95,6 +101,14 @@ def solve_case(N, bx, r, eps, f_u, density=None, pre=0, coarse=None, holder=None
                 raise Horizon()
             raise
     sol = run.solve()
+    if coarse is not None:
+        # ... and once more on the finished solver (same eps: no new global trial, the refinement runs again), after
+        # another read-only query about the reported optimum; what Solve returns must still be certified
+        try:
+            run.solver.evolvent.GetPreimages(sol.bestTrials[0].point.floatVariables)
+        except Exception:
+            pass
+        sol = run.solve()
     return run, sol, order
 
 
@@ -243,6 +257,12 @@ def plan_families(ctx):
         for coarse, eps in ((0.5, 0.01), (0.3, 0.002), (0.15, 0.01)):
             for L, r in ((1.0, 2.0), (3.0, 3.5), (10.0, 8.0)) if th else ((1.0, 3.0),):
                 tasks.append(dict(N=1, box="B1", r=r, eps=eps, kind="zig", par=[list(slopes), L], coarse=coarse))
+    # two-stage use on objectives with a decoy basin (global cone at c, shallower decoy at c2)
+    for c, c2 in ((0.1, 0.8), (0.8, 0.1), (0.3, 0.9), (0.95, 0.4), (0.05, 0.55), (0.62, 0.2)):
+        for coarse in (0.5, 0.3, 0.15):
+            for L, r in ((1.0, 2.5), (3.0, 3.5)) if not th else ((1.0, 2.5), (3.0, 3.5), (10.0, 8.0)):
+                tasks.append(dict(N=1, box="B1", r=r, eps=0.005, kind="cone", coarse=coarse,
+                                  par=[[[0.0, L, [c]], [0.15 * L, 0.7 * L, [c2]]], 2]))
     lat = (0.0, 1.0 / 3.0, 0.5, 1.0)
     epsN = {1: (0.1, 0.01), 2: (0.1, 0.03), 3: (0.2, 0.1), 4: (0.3, 0.2), 5: (0.3, 0.2)}
     if th:
